@@ -71,18 +71,19 @@ type ruleSpec struct {
 }
 
 type instOpts struct {
-	listeners []string            // udp tcp gnet tls http https fasthttp quic
-	upstreams map[string]string   // tag -> scheme ("udp", "tcp", "tcp+pipeline")
-	sets      map[string][]string // tag -> lines ("domain:z1.test")
-	rules     []ruleSpec
-	cacheMem  int
-	maxTTL    int
-	ecs       bool
-	ipMarker  []string // lines "start,end,label"
-	clients   []string // addresses the scenario's clients use (C15 live part)
-	limiter   router.LimiterConfig
-	maxConc   int32
-	xffHeader string
+	listeners  []string            // udp tcp gnet tls http https fasthttp quic
+	upstreams  map[string]string   // tag -> scheme ("udp", "tcp", "tcp+pipeline")
+	sets       map[string][]string // tag -> lines ("domain:z1.test")
+	rules      []ruleSpec
+	cacheMem   int
+	maxTTL     int
+	ecs        bool
+	ipMarker   []string // lines "start,end,label"
+	clients    []string // addresses the scenario's clients use (C15 live part)
+	limiter    router.LimiterConfig
+	maxConc    int32
+	xffHeader  string
+	logQueries bool
 }
 
 // newInst builds a configuration, starts fake upstreams and the real router in-process.
@@ -129,6 +130,7 @@ func newInstDup(name string, o instOpts, dupUp, dupSet bool) (*inst, error) {
 		cfg.Cache.IpMarker = fp
 	}
 	cfg.ECS.Enabled = o.ecs
+	cfg.Log.Queries = o.logQueries
 	cfg.Limiter = o.limiter
 	pickPorts := func() {
 		cfg.Servers = nil
